@@ -68,11 +68,10 @@ def tasks_c03(tier, seed):
     scens = ["S1", "S2", "S3Reset", "S3ResetAll", "S3TokenEvent", "S3TokenEventWithID", "S3TokenReset", "S4", "S7", "Q6"]
     if tier == "quick":
         for s in scens:
-            for c in ("w1-in4-default-direct", CFG_DEFAULT):
-                b = 2
-                if s == "Q6" and c == CFG_DEFAULT:
-                    b = 1
-                ts += explore(s, c, b, shards=4 if s in ("S1", "S2", "Q6") else 1, timeout="150s")
+            big = s in ("S1", "S2", "Q6")
+            ts += explore(s, "w1-in4-default-direct", 2, shards=4 if big else 1, timeout="100s")
+            if s != "Q6":
+                ts += explore(s, CFG_DEFAULT, 1 if big else 2, shards=2 if big else 1, timeout="100s")
     else:
         for s in scens:
             for c in ("w1-in4-default-direct", CFG_DEFAULT, "w3-in1-literal-mount"):
